@@ -63,6 +63,7 @@ func c19(c *Ctx) (*report.Result, error) {
 	res.RuleDoc["O19.2"] = "client config: InsecureSkipVerify is only ever set from SkipCAVerification; on the verifying path ServerName = CAServerName and an empty name is an error; RootCAs is the pool of fetchCACert whenever RemoteCAPath is set (its error is returned)"
 	res.RuleDoc["O19.3"] = "CA bundle: fetchCACert returns a pool only after validateHasCA succeeded; plain http:// is refused"
 	res.RuleDoc["O19.5"] = "which settings feed which role: the encryption.TLSConfig passed to GetServerTLSConfig originates (through parameters, getters and struct fields, all call sites) only from ClusterDefinition.TcpServer / .MuxAddressInfo or the zero value, the one passed to GetClientTLSConfig only from .TcpClient / .MuxAddressInfo or zero; the IsEnabled() gate reads the same settings"
+	res.RuleDoc["O19.6"] = "the on/off switch: TLSConfig.IsEnabled() is true whenever a certificate/key pair or a CA server name is configured (decided exhaustively over the emptiness of the fields it tests)"
 	res.RuleDoc["O19.4"] = "who constructs: every tls.Server / tls.Client / tls.Listen / tls.Dial / credentials.NewTLS of the module receives a config returned by GetServerTLSConfig / GetClientTLSConfig for the matching role; no other tls.Config literal or write to its security fields exists in the module; when TLS is enabled the mux providers wrap their connections"
 
 	srv := resolve(c, res, "O19.1", anchor{"encryption", "", "GetServerTLSConfig"})
@@ -281,6 +282,7 @@ func c19(c *Ctx) (*report.Result, error) {
 
 	checkTLSConstructors(c, res)
 	checkTLSSettingsRole(c, res)
+	checkIsEnabledTruthTable(c, res)
 
 	res.Explanation = "SSA of encryption.GetServerTLSConfig / GetClientTLSConfig / fetchCACert (every store into a *tls.Config field, its constant or origin, and the SkipCAVerification side it lies on; propagation of CA-load errors), and a who-constructs scan over all non-test functions of the module for tls.Server/Client/Listen/Dial/NewListener, credentials.NewTLS, tls.Config literals and stores to security-relevant tls.Config fields. What a tls.Config enforces is fixed by these fields; the handshake itself (crypto/tls) is trusted. Does not decide certificate validity periods or behaviour of crypto/tls."
 	res.Assumptions = []string{"crypto/tls verifies the client chain against ClientCAs only for VerifyClientCertIfGiven / RequireAndVerifyClientCert, and requires a certificate only for RequireAnyClientCert / RequireAndVerifyClientCert", "auth.NewEmptyTLSConfig returns a config without relaxations"}
